@@ -1936,6 +1936,8 @@ class Parallel(Logger):
         try:
             self._iterating = True
             self._original_iterator = iterable
+            # Nothing is dispatched ahead of time (used by print_progress).
+            self._pre_dispatch_amount = 0
             batch_size = self._get_batch_size()
 
             if batch_size != 1:
